@@ -37,6 +37,11 @@ def run(ck, with_order=True):
         # hunks reported failed contribute nothing, applied ones everything: every hunk is tried and every report is spliced (C04-R7)
         from . import c04 as _c04
         _c04.r7_every_hunk_is_visited(ck, rule="C03-R3b")
+        # the splice replaces the whole matched range - context included - with the hunk's own lines: only the marked lines change
+        # because a hunk is placed solely where the file's lines equal its old side byte for byte (C02-R4)
+        from . import c02 as _c02
+        from .c18 import ck_alias as _alias
+        _c02.r4(_alias(ck, "C03-R6"))
     am = ck.anchor("FilePatch::<'a, &'a [u8]>::apply_modify")
     tah = ck.anchor("libpatch::patch::try_apply_hunk")
     if am is None or tah is None:
